@@ -219,4 +219,31 @@ extern struct WOPNInstrument verif_env_ins_win[1];
     __CPROVER_decreases((size_t)(*synth__p).m_numChannels - a)
 #endif
 
+/* ---------------------------------------------------------------- opn2_generateFormat: period loop -------------------- */
+/* partial correctness only (progress depends on floating-point accumulation): what has been handed out plus what is left is
+ * the even request; the carry stays a fraction; the request position stays even and inside the request */
+#ifndef VERIF_LOOP_opnmidi_generate_period
+#define VERIF_LOOP_opnmidi_generate_period \
+    __CPROVER_assigns(left, delay, gotten_len, n_periodCountStereo, g_play.m_setup.carry, __CPROVER_object_upto(g_play.m_outBuf, sizeof(g_play.m_outBuf)), g_gen_calls, g_send_calls, g_tick_calls, g_sent_frames) \
+    __CPROVER_loop_invariant(left >= 0 && left <= sampleCount && left % 2 == 0) \
+    __CPROVER_loop_invariant(gotten_len == (ssize_t)sampleCount - (ssize_t)left && g_sent_frames >= 0 && g_sent_frames <= 1073741823 && gotten_len == 2 * g_sent_frames) \
+    __CPROVER_loop_invariant(g_play.m_setup.carry >= 0.0 && g_play.m_setup.carry < 1.0) \
+    __CPROVER_loop_invariant(delay <= 2.0e9 && !(delay != delay))
+#endif
+
+/* opn2_playFormat: the same request accounting; the pending delay stays finite and not negative; skipping is only active
+ * while the stored skip count is positive */
+#ifndef VERIF_LOOP_opnmidi_play_period
+#define VERIF_LOOP_opnmidi_play_period \
+    __CPROVER_assigns(left, gotten_len, n_periodCountStereo, hasSkipped, g_play.m_setup.carry, g_play.m_setup.delay, g_play.m_setup.tick_skip_samples_delay, \
+                      __CPROVER_object_upto(g_play.m_outBuf, sizeof(g_play.m_outBuf)), g_gen_calls, g_send_calls, g_tick_calls, g_atend_seen, g_sent_frames) \
+    __CPROVER_loop_invariant(left >= 0 && left <= sampleCount && left % 2 == 0) \
+    __CPROVER_loop_invariant(gotten_len == (ssize_t)sampleCount - (ssize_t)left && g_sent_frames >= 0 && g_sent_frames <= 1073741823 && gotten_len == 2 * g_sent_frames) \
+    __CPROVER_loop_invariant(g_play.m_setup.carry >= 0.0 && g_play.m_setup.carry < 1.0) \
+    __CPROVER_loop_invariant(g_play.m_setup.delay >= 0.0 && g_play.m_setup.delay <= 1.0e9) \
+    __CPROVER_loop_invariant(g_play.m_setup.tick_skip_samples_delay >= -SKIP_BOUND && g_play.m_setup.tick_skip_samples_delay <= SKIP_BOUND) \
+    __CPROVER_loop_invariant(!hasSkipped || g_play.m_setup.tick_skip_samples_delay > 0) \
+    __CPROVER_loop_invariant(g_atend_seen == 0 || g_atend_seen == 1)
+#endif
+
 #endif
